@@ -49,32 +49,79 @@ theorem sigC_dispatch (cfg : NCfg) (hc : 1 ≤ cfg.capW) (s : NSt β) (e : Ev) (
     · exact Or.inl h
     · exact Or.inr h
 
+theorem dispatch1_pd_ge (cfg : NCfg) (s : NSt β) (e : Ev) : s.pd ≤ (dispatch1 cfg s e).pd := by
+  cases e with
+  | write => exact Nat.le_refl _
+  | remove => exact le_sendNB _ _
+  | create =>
+    simp only [dispatch1]
+    split
+    · exact le_sendNB _ _
+    · exact Nat.le_refl _
+  | other => exact Nat.le_refl _
+
 theorem sigD_dispatch (cfg : NCfg) (hc : 1 ≤ cfg.capD) (s : NSt β) (e : Ev) (rest : List Ev)
     (h : 0 < s.pd ∨ Ev.remove ∈ e :: rest) : 0 < (dispatch1 cfg s e).pd ∨ Ev.remove ∈ rest := by
-  cases e <;> simp [dispatch1] at h ⊢
-  · rcases h with h | h
-    · exact Or.inl h
-    · exact Or.inr h
-  · exact Or.inl (sendNB_pos hc)
-  · rcases h with h | h
-    · exact Or.inl h
-    · exact Or.inr h
-  · rcases h with h | h
-    · exact Or.inl h
+  rcases h with h | h
+  · exact Or.inl (Nat.lt_of_lt_of_le h (dispatch1_pd_ge cfg s e))
+  · rcases List.mem_cons.mp h with h | h
+    · subst h; exact Or.inl (sendNB_pos hc)
     · exact Or.inr h
 
-theorem sigD_dispatch_rev (cfg : NCfg) (s : NSt β) (e : Ev) (rest : List Ev)
-    (h : 0 < (dispatch1 cfg s e).pd ∨ Ev.remove ∈ rest) : 0 < s.pd ∨ Ev.remove ∈ e :: rest := by
-  cases e <;> simp [dispatch1] at h ⊢
-  · rcases h with h | h
+/-- **A delete signal is pending**: a token in `eventDelete`, a queued Remove event, or – with re-open – a
+    queued Create event (the watcher goroutine turns it into the delete signal as well). -/
+def dP (cfg : NCfg) (pd : Nat) (q : List Ev) : Prop :=
+  0 < pd ∨ Ev.remove ∈ q ∨ (cfg.reopen = true ∧ Ev.create ∈ q)
+
+theorem dP_dispatch (cfg : NCfg) (hc : 1 ≤ cfg.capD) (s : NSt β) (e : Ev) (rest : List Ev)
+    (h : dP cfg s.pd (e :: rest)) : dP cfg (dispatch1 cfg s e).pd rest := by
+  rcases h with h | h | ⟨hre, h⟩
+  · exact Or.inl (Nat.lt_of_lt_of_le h (dispatch1_pd_ge cfg s e))
+  · rcases List.mem_cons.mp h with h | h
+    · subst h; exact Or.inl (sendNB_pos hc)
+    · exact Or.inr (Or.inl h)
+  · rcases List.mem_cons.mp h with h | h
+    · subst h
+      refine Or.inl ?_
+      simp only [dispatch1, hre, if_true]
+      exact sendNB_pos hc
+    · exact Or.inr (Or.inr ⟨hre, h⟩)
+
+theorem dP_dispatch_rev (cfg : NCfg) (s : NSt β) (e : Ev) (rest : List Ev)
+    (h : dP cfg (dispatch1 cfg s e).pd rest) : dP cfg s.pd (e :: rest) := by
+  have lift : dP cfg s.pd rest → dP cfg s.pd (e :: rest) := by
+    rintro (h | h | ⟨h1, h2⟩)
     · exact Or.inl h
-    · exact Or.inr h
-  · rcases h with h | h
-    · exact Or.inl h
-    · exact Or.inr h
-  · rcases h with h | h
-    · exact Or.inl h
-    · exact Or.inr h
+    · exact Or.inr (Or.inl (List.mem_cons_of_mem _ h))
+    · exact Or.inr (Or.inr ⟨h1, List.mem_cons_of_mem _ h2⟩)
+  cases e with
+  | write => exact lift h
+  | remove => exact Or.inr (Or.inl (List.mem_cons_self ..))
+  | create =>
+    by_cases hre : cfg.reopen = true
+    · exact Or.inr (Or.inr ⟨hre, List.mem_cons_self ..⟩)
+    · have hpd : (dispatch1 cfg s .create).pd = s.pd := by simp [dispatch1, hre]
+      rw [hpd] at h; exact lift h
+  | other => exact lift h
+
+@[simp] theorem not_dP_nil (cfg : NCfg) : ¬ dP cfg 0 [] := by simp [dP]
+
+theorem dP_snoc (cfg : NCfg) (pd : Nat) (q : List Ev) (e : Ev) (h : dP cfg pd q) : dP cfg pd (q ++ [e]) := by
+  rcases h with h | h | ⟨h1, h2⟩
+  · exact Or.inl h
+  · exact Or.inr (Or.inl (by simp [h]))
+  · exact Or.inr (Or.inr ⟨h1, by simp [h2]⟩)
+
+theorem dP_snoc_rev (cfg : NCfg) (pd : Nat) (q : List Ev) (e : Ev) (h1 : e ≠ .remove) (h2 : e ≠ .create)
+    (h : dP cfg pd (q ++ [e])) : dP cfg pd q := by
+  rcases h with h | h | ⟨hre, h⟩
+  · exact Or.inl h
+  · rcases List.mem_append.mp h with h | h
+    · exact Or.inr (Or.inl h)
+    · simp only [List.mem_singleton] at h; exact absurd h.symm h1
+  · rcases List.mem_append.mp h with h | h
+    · exact Or.inr (Or.inr ⟨hre, h⟩)
+    · simp only [List.mem_singleton] at h; exact absurd h.symm h2
 
 /-- Inductive invariant of the notify system.  `ex` – the file existed when following started;
     `st0` – the start position of the initial handle. -/
@@ -87,10 +134,12 @@ structure NInv (cfg : NCfg) (ex : Bool) (st0 : Nat) (s : NSt β) : Prop where
   incr : ((s.hist ++ s.f.toList).map (·.ino)).Pairwise (· < ·)
   /-- no lost wake-up -/
   wake : ∀ h, s.f = some h → unread s.fs h ≠ [] → 0 < s.pw ∨ Ev.write ∈ s.evq ∨ s.rd ≠ .selecting
-  dSig : (0 < s.pd ∨ Ev.remove ∈ s.evq) → 0 < s.removes
+  /-- a delete signal is pending only after a removal – or, with re-open, after the creation of a file that
+      did not exist when following started (Create raises the delete signal too) -/
+  dSig : dP cfg s.pd s.evq → 0 < s.removes ∨ (cfg.reopen = true ∧ ex = false)
   ended : s.rd = .ended → cfg.reopen = false ∧ 0 < s.removes ∧ s.f = none
   latch : cfg.reopen = false → 0 < s.removes → s.rd = .ended ∨ 0 < s.pd ∨ Ev.remove ∈ s.evq
-  gone : ∀ h, s.f = some h → s.fs.path ≠ some h.ino → 0 < s.pd ∨ Ev.remove ∈ s.evq
+  gone : ∀ h, s.f = some h → s.fs.path ≠ some h.ino → dP cfg s.pd s.evq
   fresh : cfg.reopen = true → s.f = none → ∀ j, s.fs.path = some j →
       0 < s.pw ∨ Ev.create ∈ s.evq ∨ 0 < s.pd ∨ Ev.remove ∈ s.evq
   inPlace : ex = true → s.removes = 0 → s.hist = [] ∧ s.fs.path = some 0 ∧ ∃ p, s.f = some ⟨0, st0, p⟩
@@ -131,16 +180,14 @@ theorem ninv_writer {s s' : NSt β} (h : NInv cfg ex st0 s) (hs : NStep cfg .wri
     refine ⟨h.core.append i bs, ?_, h.starts, h.histLt, h.curLe, h.incr, ?_, ?_, h.ended, ?_, ?_, ?_, h.inPlace⟩
     · intro x hx; exact Nat.le_trans (h.strong x hx) (len_append_ge _ _ _ _)
     · intro x hx _; exact Or.inr (Or.inl (by simp))
-    · intro hd; apply h.dSig; simpa using hd
+    · intro hd; exact h.dSig (dP_snoc_rev cfg _ _ .write (by simp) (by simp) hd)
     · intro hr hrm
       rcases h.latch hr hrm with h1 | h1 | h1
       · exact Or.inl h1
       · exact Or.inr (Or.inl h1)
       · exact Or.inr (Or.inr (by simp [h1]))
     · intro x hx hne
-      rcases h.gone x hx hne with h1 | h1
-      · exact Or.inl h1
-      · exact Or.inr (by simp [h1])
+      exact dP_snoc cfg _ _ _ (h.gone x hx hne)
     · intro hr hf j hj
       rcases h.fresh hr hf j hj with h1 | h1 | h1 | h1
       · exact Or.inl h1
@@ -156,10 +203,10 @@ theorem ninv_writer {s s' : NSt β} (h : NInv cfg ex st0 s) (hs : NStep cfg .wri
       · exact Or.inl h1
       · exact Or.inr (Or.inl (by simp [h1]))
       · exact Or.inr (Or.inr h1)
-    · intro _; exact Nat.succ_pos _
+    · intro _; exact Or.inl (Nat.succ_pos _)
     · intro hr; have := h.ended hr; exact ⟨this.1, Nat.succ_pos _, this.2.2⟩
     · intro _ _; exact Or.inr (Or.inr (by simp))
-    · intro x _ _; exact Or.inr (by simp)
+    · intro x _ _; exact Or.inr (Or.inl (by simp))
     · intro _ _ j hj; cases hj
     · intro _ hr; simp at hr
   | create _ hp =>
@@ -184,16 +231,29 @@ theorem ninv_writer {s s' : NSt β} (h : NInv cfg ex st0 s) (hs : NStep cfg .wri
       · exact Or.inl h1
       · exact Or.inr (Or.inl (by simp [h1]))
       · exact Or.inr (Or.inr h1)
-    · intro hd; apply h.dSig; simpa using hd
+    · intro hd
+      rcases hd with hd | hd | ⟨hre, _⟩
+      · exact h.dSig (Or.inl hd)
+      · refine h.dSig (Or.inr (Or.inl ?_))
+        rcases List.mem_append.mp hd with hd | hd
+        · exact hd
+        · simp at hd
+      · cases hex : ex with
+        | false => exact Or.inr ⟨hre, rfl⟩
+        | true =>
+          left
+          cases hrm : s.removes with
+          | zero =>
+            have := (h.inPlace hex hrm).2.1
+            rw [hp] at this; cases this
+          | succ k => exact Nat.succ_pos _
     · intro hr hrm
       rcases h.latch hr hrm with h1 | h1 | h1
       · exact Or.inl h1
       · exact Or.inr (Or.inl h1)
       · exact Or.inr (Or.inr (by simp [h1]))
     · intro x hx _
-      rcases h.gone x hx (by rw [hp]; simp) with h1 | h1
-      · exact Or.inl h1
-      · exact Or.inr (by simp [h1])
+      exact dP_snoc cfg _ _ _ (h.gone x hx (by rw [hp]; simp))
     · intro _ _ j _; exact Or.inr (Or.inl (by simp))
     · intro he hr
       have := (h.inPlace he hr).2.1
@@ -205,16 +265,14 @@ theorem ninv_writer {s s' : NSt β} (h : NInv cfg ex st0 s) (hs : NStep cfg .wri
       · exact Or.inl h1
       · exact Or.inr (Or.inl (by simp [h1]))
       · exact Or.inr (Or.inr h1)
-    · intro hd; apply h.dSig; simpa using hd
+    · intro hd; exact h.dSig (dP_snoc_rev cfg _ _ .other (by simp) (by simp) hd)
     · intro hr hrm
       rcases h.latch hr hrm with h1 | h1 | h1
       · exact Or.inl h1
       · exact Or.inr (Or.inl h1)
       · exact Or.inr (Or.inr (by simp [h1]))
     · intro x hx hne
-      rcases h.gone x hx hne with h1 | h1
-      · exact Or.inl h1
-      · exact Or.inr (by simp [h1])
+      exact dP_snoc cfg _ _ _ (h.gone x hx hne)
     · intro hr hf j hj
       rcases h.fresh hr hf j hj with h1 | h1 | h1 | h1
       · exact Or.inl h1
@@ -245,7 +303,7 @@ theorem ninv_kernel (hW : 1 ≤ cfg.capW) (hD : 1 ≤ cfg.capD) {s s' : NSt β} 
       simp only [dispatch1_evq, dispatch1_removes] at hd ⊢
       apply h.dSig
       rw [he]
-      exact sigD_dispatch_rev cfg { s with evq := rest } e rest hd
+      exact dP_dispatch_rev cfg { s with evq := rest } e rest hd
     · intro hr hrm
       simp only [dispatch1_evq, dispatch1_removes, dispatch1_rd] at hrm ⊢
       have hl := h.latch hr hrm
@@ -257,7 +315,7 @@ theorem ninv_kernel (hW : 1 ≤ cfg.capW) (hD : 1 ≤ cfg.capD) {s s' : NSt β} 
       simp only [dispatch1_f, dispatch1_fs, dispatch1_evq] at hx hne ⊢
       have hg := h.gone x hx hne
       rw [he] at hg
-      exact sigD_dispatch cfg hD { s with evq := rest } e rest hg
+      exact dP_dispatch cfg hD { s with evq := rest } e rest hg
     · intro hr hf j hj
       simp only [dispatch1_f, dispatch1_fs, dispatch1_evq] at hf hj ⊢
       have hg := h.fresh hr hf j hj
@@ -425,7 +483,12 @@ theorem ninv_reader {s s' : NSt β} (h : NInv cfg ex st0 s) (hs : NStep cfg .rea
         have hf'' : s.f = none := hf'
         simp [hf'', hr]
   | recvD _ hrd hpd hre =>
-    have hrm : 0 < s.removes := h.dSig (Or.inl hpd)
+    have hrm : 0 < s.removes ∨ (cfg.reopen = true ∧ ex = false) := h.dSig (Or.inl hpd)
+    have hnip : ex = true → s.removes = 0 → False := by
+      intro he hr
+      rcases hrm with h1 | ⟨_, h2⟩
+      · omega
+      · rw [h2] at he; cases he
     by_cases hsame : sameFile { s with pd := s.pd - 1 } = true
     · have heq : reopenIfReplaced { s with pd := s.pd - 1 } = { s with pd := s.pd - 1 } := by
         simp only [reopenIfReplaced]; rw [if_pos hsame]
@@ -451,7 +514,7 @@ theorem ninv_reader {s s' : NSt β} (h : NInv cfg ex st0 s) (hs : NStep cfg .rea
       · intro _ hf'
         have hf'' : s.f = none := hf'
         rw [hfx] at hf''; cases hf''
-      · intro _ hr; simp only at hr; omega
+      · intro he hr; exact absurd hr (fun hr => hnip he hr)
     · have heq : reopenIfReplaced { s with pd := s.pd - 1 } =
           { s with pd := s.pd - 1, f := openAt s.fs 0, hist := s.hist ++ s.f.toList } := by
         simp only [reopenIfReplaced]; rw [if_neg hsame]; rfl
@@ -508,9 +571,12 @@ theorem ninv_reader {s s' : NSt β} (h : NInv cfg ex st0 s) (hs : NStep cfg .rea
         have := openAt_none s.fs 0 hf'
         have hj' : s.fs.path = some j := hj
         rw [this] at hj'; cases hj'
-      · intro _ hr; simp only at hr; omega
+      · intro he hr; exact absurd hr (fun hr => hnip he hr)
   | recvDPlain _ hrd hpd hre =>
-    have hrm : 0 < s.removes := h.dSig (Or.inl hpd)
+    have hrm : 0 < s.removes := by
+      rcases h.dSig (Or.inl hpd) with h1 | ⟨h1, _⟩
+      · exact h1
+      · rw [hre] at h1; cases h1
     have hc : Core s.fs none (s.hist ++ s.f.toList) s.delivered := h.core.closeOpt
     refine ⟨hc, ?_, ?_, ?_, ?_, ?_, ?_, ?_, ?_, ?_, ?_, ?_, ?_⟩
     · intro y hy; exact h.strong y (by simpa [NSt.closeFile] using hy)
@@ -519,7 +585,7 @@ theorem ninv_reader {s s' : NSt β} (h : NInv cfg ex st0 s) (hs : NStep cfg .rea
     · intro y hy; simp [NSt.closeFile] at hy
     · simpa [NSt.closeFile] using h.incr
     · intro y hy; simp [NSt.closeFile] at hy
-    · intro _; exact hrm
+    · intro _; exact Or.inl hrm
     · intro _; exact ⟨hre, hrm, rfl⟩
     · intro _ _; exact Or.inl rfl
     · intro y hy; simp [NSt.closeFile] at hy
